@@ -199,7 +199,8 @@ def capsule_tree(rng, base: str, symlinks=True, odd_names=True, root_via_symlink
                 add_file(os.path.join(d, n), True)
     # outside and prefix-sharing siblings
     outs = []
-    for oname in ("site-private", "site2", "outside"):
+    # ("Site": the root's own name in another letter case - on a case-sensitive file system a different directory)
+    for oname in ("site-private", "site2", "outside", "Site"):
         od = os.path.join(base, oname)
         os.makedirs(od)
         outs.append(od)
